@@ -33,6 +33,11 @@ def excval(x):
     return ValueError("multiple of three", x) if x % 3 == 0 else (KeyError(x) if x % 3 == 1 else x)
 
 
+def typed(x):
+    # equal items (1, True, 1.0) are different inputs
+    return (type(x).__name__, repr(x))
+
+
 def canon(v):
     return (type(v).__name__, v.args) if isinstance(v, BaseException) else v
 
@@ -44,6 +49,7 @@ SCENARIOS = {
     "fmap_none_and_falsy": ("fmap", 3, small, [(9, 2)]),
     "fmap_falsy_results": ("fmap", 2, falsy, [(6, 1)]),
     "fmap_exception_values": ("fmap", 2, excval, [(7, 2), (4, 1)]),
+    "fmap_equal_items": ("fmap", 2, typed, [(10, 3), (10, 10)]),
     "mulp_exception_values": ("mulp", 2, excval, [(6, 1)]),
     "mulp_small": ("mulp", 3, small, [(20, 1), (0, 1), (2, 1)]),
     "mulp_big_results": ("mulp", 2, big, [(6, 1)]),
@@ -51,6 +57,8 @@ SCENARIOS = {
 
 
 def inputs(name, n):
+    if name == "fmap_equal_items":
+        return [1, True, 1.0, 1, 2, 2.0, 0, False, 0.0, -0.0][:n]
     if name == "fmap_none_and_falsy":
         return [None if i % 4 == 1 else i for i in range(n)]
     return list(range(n))
